@@ -184,8 +184,26 @@ def build_harness(prop):
     return (out if rc == 0 else None), log
 
 
+_DRIVER_COPY = {}
+
+
 def driver_path():
-    return os.path.join(LEAN, ".lake", "build", "bin", "driver")
+    """The driver used by this process: a private copy of the built binary (another check may be
+    relinking lean/.lake/build/bin/driver at the same time)."""
+    return _DRIVER_COPY.get("path", os.path.join(LEAN, ".lake", "build", "bin", "driver"))
+
+
+def snapshot_driver(prop):
+    """Call while holding the build lock, right after `lake build … driver`."""
+    src = os.path.join(LEAN, ".lake", "build", "bin", "driver")
+    dst = os.path.join(WORK, prop, "driver")
+    os.makedirs(os.path.dirname(dst), exist_ok=True)
+    try:
+        shutil.copyfile(src, dst)
+        os.chmod(dst, 0o755)
+        _DRIVER_COPY["path"] = dst
+    except OSError:
+        _DRIVER_COPY.pop("path", None)
 
 
 def run_driver(ops_path, out_path):
